@@ -137,7 +137,7 @@ func c10compRandom(r *Run, rng *Rng, idx int) {
 	ng := rng.Range(1, 3)
 	fs := []int{rng.Pick(0, 1, 2, 3)}
 	for i := 0; i < ng; i++ {
-		fs = append(fs, rng.Pick(0, 1, 2, 2, 3, 3, 4, 5))
+		fs = append(fs, rng.Pick(0, 1, 2, 3, 3, 4, 4, 5, 5))
 	}
 	ndev := ng + 1
 	steps := rng.Range(6, 30)
@@ -159,6 +159,9 @@ func c10compRandom(r *Run, rng *Rng, idx int) {
 			}
 		}
 		w := rng.Intn(100)
+		if len(live) >= 3 && w >= 22 && w < 40 {
+			w = 60 + rng.Intn(40) // enough live buffers: remap / distribute / free instead of one more allocation
+		}
 		switch {
 		case w < 8:
 			return fmt.Sprintf("sel 0 %d", dev())
